@@ -1,6 +1,7 @@
 import Driver.Util
 import GitBugModel.Model.Cache
 import GitBugModel.Model.CacheStaged
+import GitBugModel.Model.Lru
 /-! Driver command for C11: replay a cache session on the finer model (GitBugModel.CacheStaged:
 operation lists, staging areas, excerpt file); after every recorded action: which ids are in the
 excerpt map and in the index, and for every listed bug the number of comments its excerpt shows
@@ -46,11 +47,31 @@ def observe (s : S) : Json :=
     | _, _ => none
   Json.mkObj [("excerpts", jstrs ids), ("index", jstrs (present s.index s.ids)), ("bugs", Json.mkObj bugs)]
 
-def handle (j : Json) : Json :=
+/-- `lru`: a session of calls on one cache with a small cache size; per call what it shows -/
+def handleLru (j : Json) : Json :=
+  let calls : List GitBugModel.Lru.Call := (getArr j "calls").filterMap fun c =>
+    let id := getStr c "id"
+    match getStr c "c" with
+    | "resolve" => some (.resolve id)
+    | "new" => some (.new id)
+    | "edit" => some (.edit id)
+    | "commit" => some (.commit id)
+    | "setsize" => some (.setSize (getNat c "n"))
+    | "remove" => some (.remove id)
+    | _ => none
+  let (_, outs) := GitBugModel.Lru.run (GitBugModel.Lru.init 1000) calls
+  jarr (outs.map fun o => Json.mkObj [("same", jarr (o.same.map Json.bool)), ("ok", Json.bool o.ok)])
+
+def handleCache (j : Json) : Json :=
   let init : S := rebuild (fun _ => none) []
   let (_, outs) := (getArr j "actions").foldl (fun (acc : S × List Json) a =>
     let s' := apply acc.1 a
     (s', acc.2 ++ [observe s'])) (init, [])
   jarr outs
+
+def handle (j : Json) : Json :=
+  match getStr j "cmd" with
+  | "lru" => handleLru j
+  | _ => handleCache j
 
 end Driver.C11
